@@ -38,7 +38,7 @@ var weirdVersions = []string{"", "0", "-1", "+3", "007", "abc", "999999999999999
 
 func genSpec(rng *rand.Rand, nkeys int) world.Spec {
 	k := cacheKeys[rng.Intn(nkeys)]
-	s := world.Spec{NS: k[0], Name: k[1], Labels: randLabels(rng)}
+	s := world.Spec{NS: k[0], Name: k[1], Labels: randLabels(rng), UID: pick(rng, "", "", "u1", "u1", "u2")}
 	if rng.Intn(8) == 0 {
 		s.RV = weirdVersions[rng.Intn(len(weirdVersions))]
 	} else {
